@@ -39,6 +39,7 @@ type ProgFunc struct {
 	CallLine int         `json:"call_line"`      // line of the call to the next function (or of the panic)
 	Words    int         `json:"words"`          // total words including the receiver
 	File     string      `json:"file,omitempty"` // source file holding the function ("" = main.go)
+	Deferred bool        `json:"deferred,omitempty"` // the next function is called by a defer statement: this frame's line is the closing brace
 }
 
 // Prog is a generated program.
@@ -225,6 +226,7 @@ func GenProgFiles(r *core.Rand, n int, twoFiles bool) *Prog {
 			f.Params = append(f.Params, ProgParam{Kind: "...int", Lit: "1, 2", Words: 3, Unsupported: true})
 			f.Words += 3
 		}
+		f.Deferred = r.Chance(1, 5)
 		p.Funcs = append(p.Funcs, f)
 	}
 	type fileW struct {
@@ -294,9 +296,16 @@ func GenProgFiles(r *core.Rand, n int, twoFiles bool) *Prog {
 		} else {
 			wr(out, fmt.Sprintf("func %s(%s) {", f.Name, strings.Join(ps, ", ")))
 		}
-		wr(out, "\t"+call(i+1))
-		f.CallLine = out.line
-		wr(out, "}")
+		if f.Deferred {
+			// the callee runs when this function returns: the frame is reported on the line of the closing brace
+			wr(out, "\tdefer "+call(i+1))
+			wr(out, "}")
+			f.CallLine = out.line
+		} else {
+			wr(out, "\t"+call(i+1))
+			f.CallLine = out.line
+			wr(out, "}")
+		}
 		wr(out, "")
 	}
 	w("func main() {")
